@@ -18,10 +18,14 @@ the "S" rows in order).  Statements that touch only thread-local state of the se
 `__log`, `__clear_on_success`, `in_backoff`: runnable.py 85-91, 104, 106-117, 122) are folded into the neighbouring step;
 they commute with every step of the other thread.
 
-The parameter `v : Bool` selects a *variant* program: `v = false` is the source as it is; `v = true` is the program in
-which the reset `self.__stopping = False` sits in `run()`'s prologue (after line 96, executed by the service thread) instead
-of in `start()` (line 184, executed by the caller thread before the service thread exists).  The variant exists only to
-state, kernel-checked, why the placement matters (Props/C18Threads.lean `variant_loses_stop`).
+The parameter `v : Prog` selects the program: `.head` is the source as it is; `.resetInRun` is the variant in which the reset
+`self.__stopping = False` sits in `run()`'s prologue (after line 96, executed by the service thread) instead of in `start()`
+(line 184, executed by the caller thread before the service thread exists); `.wakeTwice` is `wake()` as it was before fix fa2d0de
+(the attribute `__interrupt` read twice).  The variants exist only to state, kernel-checked, why the placement / the single
+read matters (Props/C18Threads.lean `variant_loses_stop`, `wake_twice_raises`).
+
+Line numbers: the program counters are named after the lines of runnable.py as of 829af71; fix fa2d0de (wake() reads the event
+once) inserted two lines at 167, so every statement from `wake()`'s body on now sits two lines further down (`start` 178 → 180, …).
 
 Not modelled: more than one caller thread; `stop()` called from inside `do()` (the `current_thread() != thread` test of lines
 207/234 is always true here); `run(timeout=...)`; `run()` called directly without `start()`.
@@ -69,8 +73,8 @@ inductive CPc where
   | a187                    -- start 187: self.__thread.start()
   | p202 (f w : Bool)       -- stop 202: self.__shutdown = forever
   | p203 (f w : Bool)       -- stop 203: self.__stopping = True
-  | k167 (c : Ctx)          -- (stop 204 →) wake 167: if self.__interrupt is None: return
-  | k170 (c : Ctx)          -- wake 170: self.__interrupt.set()
+  | k167 (c : Ctx)          -- (stop 204 →) wake 168-171: interrupt = self.__interrupt; if interrupt is None: return
+  | k170 (c : Ctx)          -- wake 172: interrupt.set()   (on the object read at 168; no second read of the attribute)
   | p205 (f w : Bool)       -- stop 205-209: thread = self.__thread; if thread: if current != thread: if wait: self.wait()
   | w233 (c : Ctx) (timed : Bool)   -- wait 233-234: thread = self.__thread; if thread and current != thread:
   | w235j (c : Ctx) (timed : Bool)  -- wait 235:     thread.join(timeout=timeout)   (blocked)
@@ -84,7 +88,7 @@ inductive Ret where
   | stopRet (f w : Bool)
   | wakeRet
   | waitTrue | waitFalse | waitTimeout
-  | attrErr                 -- AttributeError: 'NoneType' object has no attribute 'set'  (wake 170)
+  | attrErr                 -- AttributeError: 'NoneType' object has no attribute 'set'  (variant `wakeTwice` only)
   deriving Repr, DecidableEq
 
 /-- `self.__thread` -/
@@ -126,6 +130,24 @@ def SPc.alive : SPc → Bool
 
 def alive (s : St) : Bool := s.svc.alive
 
+/-- which program is executed: the source as it is, or one of two *variant* programs kept to document, kernel-checked, why a
+    statement is where / what it is -/
+inductive Prog where
+  | head          -- cloudsync/runnable.py as it is
+  | resetInRun    -- `self.__stopping = False` executed by the service thread in run()'s prologue instead of by start() (line 184):
+                  --   the seeded regression R3-C18
+  | wakeTwice     -- wake() as it was before fix fa2d0de: `if self.__interrupt is None: …; self.__interrupt.set()`, two reads of the
+                  --   attribute, the second one failing when run()'s finally block has set it to None in between
+  deriving Repr, DecidableEq
+
+def Prog.resets : Prog → Bool
+  | .resetInRun => true
+  | _ => false
+
+def Prog.readsTwice : Prog → Bool
+  | .wakeTwice => true
+  | _ => false
+
 inductive Tick where
   | c (tmo : Bool)                                -- caller thread: next statement (a timed join may give up iff `tmo`)
   | s (tmo : Bool) (o : Outcome) (untl : Bool)    -- service thread: next statement (sleep times out iff `tmo`; `o` = outcome of
@@ -134,12 +156,12 @@ inductive Tick where
   deriving Repr, DecidableEq
 
 /-- one statement of the service thread; `none` = no such thread / blocked -/
-def stepS (v : Bool) (s : St) (tmo : Bool) (o : Outcome) (untl : Bool) : Option St :=
+def stepS (v : Prog) (s : St) (tmo : Bool) (o : Outcome) (untl : Bool) : Option St :=
   match s.svc with
   | .none | .dead => none
   | .r95 => some { s with intr := .clear, svc := .r96 }
-  | .r96 => some { s with stopped := false, svc := if v then .r96v else .r100 }
-  | .r96v => if v then some { s with stopping := false, svc := .r100 } else none   -- this statement exists in the variant only
+  | .r96 => some { s with stopped := false, svc := if v.resets then .r96v else .r100 }
+  | .r96v => if v.resets then some { s with stopping := false, svc := .r100 } else none   -- this statement exists in the variant only
   | .r100 => some { s with svc := if s.stopping then .f129 else .r100b }
   | .r100b => some { s with svc := if s.shutdown then .f129 else .r105 }
   | .r105 => some { s with dos := o :: s.dos, svc := .r119 }        -- whatever do() raises, the loop goes on (103-117)
@@ -169,7 +191,7 @@ def waitReturn (s : St) (r : Ret) : Ctx → St
   | some (f, w) => { s with cal := .idle, ret := .stopRet f w }
 
 /-- one statement of the caller thread; `none` = idle / blocked in a join -/
-def stepC (v : Bool) (s : St) (tmo : Bool) : Option St :=
+def stepC (v : Prog) (s : St) (tmo : Bool) : Option St :=
   match s.cal with
   | .idle => none
   | .a178 => some (if s.shutdown then { s with cal := .idle, ret := .startRefused } else { s with cal := .a180 })
@@ -178,7 +200,7 @@ def stepC (v : Bool) (s : St) (tmo : Bool) : Option St :=
   | .a181j => if !alive s || tmo then some { s with cal := .a182 } else none
   | .a182 =>
     some (if s.thr != .none && alive s then { s with cal := .idle, ret := .startAlready }
-          else { s with cal := if v then .a185 else .a184 })
+          else { s with cal := if v.resets then .a185 else .a184 })
   | .a184 => some { s with stopping := false, cal := .a185 }
   | .a185 => some { s with thr := .created, cal := .a186 }
   | .a186 => some { s with cal := .a187 }
@@ -187,7 +209,9 @@ def stepC (v : Bool) (s : St) (tmo : Bool) : Option St :=
   | .p203 f w => some { s with stopping := true, cal := .k167 (some (f, w)) }
   | .k167 c => some (if s.intr == .absent then wakeReturn s c else { s with cal := .k170 c })
   | .k170 c =>
-    some (if s.intr == .absent then { s with cal := .idle, ret := .attrErr }   -- None.set(): the exception leaves stop() too
+    some (if s.intr == .absent then
+            (if v.readsTwice then { s with cal := .idle, ret := .attrErr }   -- pre-fix: None.set(); the exception leaves stop() too
+             else wakeReturn s c)                                            -- set() on the event object that run() has dropped
           else wakeReturn { s with intr := .set } c)
   | .p205 f w =>
     some (if s.thr != .none && w then { s with cal := .w233 (some (f, w)) false }
@@ -202,13 +226,13 @@ def Call.entry : Call → CPc
   | .wake => .k167 none
   | .wait timed => .w233 none timed
 
-def step (v : Bool) (s : St) : Tick → Option St
+def step (v : Prog) (s : St) : Tick → Option St
   | .c tmo => stepC v s tmo
   | .s tmo o untl => stepS v s tmo o untl
   | .call k => if s.cal == .idle then some { s with cal := k.entry, ret := .none } else none
 
 /-- run a schedule; ticks that are not enabled are skipped -/
-def exec (v : Bool) (s : St) : List Tick → St
+def exec (v : Prog) (s : St) : List Tick → St
   | [] => s
   | t :: ts => exec v ((step v s t).getD s) ts
 
@@ -248,8 +272,8 @@ def CPc.label : CPc → String
   | .a187 => "start:self.__thread.start()"
   | .p202 _ _ => "stop:self.__shutdown = forever"
   | .p203 _ _ => "stop:self.__stopping = True"
-  | .k167 _ => "wake:if self.__interrupt is None"
-  | .k170 _ => "wake:self.__interrupt.set()"
+  | .k167 _ => "wake:interrupt = self.__interrupt"
+  | .k170 _ => ""
   | .p205 _ _ => "stop:thread = self.__thread"
   | .w233 _ _ => "wait:thread = self.__thread"
   | .w235j _ _ => ""
@@ -264,11 +288,11 @@ def CPc.blocked : CPc → Bool
   | .a181j | .w235j _ _ => true
   | _ => false
 
-/-- the program counters in program order, per method of the source (HEAD program, `v = false`) -/
+/-- the program counters in program order, per method of the source (program `.head`) -/
 def pcLabels : List String :=
   [SPc.s67, .s68].map SPc.label
   ++ [SPc.r95, .r96, .r100, .r105, .r119, .f129, .f130, .f131, .f140, .f141].map SPc.label
-  ++ [CPc.k167 none, .k170 none].map CPc.label
+  ++ [CPc.k167 none].map CPc.label
   ++ [CPc.a178, .a180, .a181, .a182, .a184, .a185, .a186, .a187].map CPc.label
   ++ [CPc.p202 false false, .p203 false false, .p205 false false].map CPc.label
   ++ [CPc.w233 none false].map CPc.label
@@ -310,9 +334,10 @@ def auditedStmts : List (String × String × String × String) := [
   ("run", "finally>if", "S", "self.done()"),
   ("started", "", "S", "return self.__interrupt is not None"),
   ("nothing_happened", "", "-", "self.__clear_on_success = False"),
-  ("wake", "", "S", "if self.__interrupt is None"),
+  ("wake", "", "S", "interrupt = self.__interrupt"),
+  ("wake", "", "-", "if interrupt is None"),
   ("wake", "if", "-", "return"),
-  ("wake", "", "S", "self.__interrupt.set()"),
+  ("wake", "", "-", "interrupt.set()"),
   ("start", "", "-", "if self.service_name is None"),
   ("start", "if", "-", "self.service_name = self.__class__.__name__"),
   ("start", "", "S", "if self.__shutdown"),
@@ -376,7 +401,7 @@ def auditedLabels : List String :=
 def SPc.stops (p : SPc) : Bool := p.label != "" || p.blocked || !p.alive
 def CPc.stops (p : CPc) : Bool := p.label != "" || p.blocked || p == .idle
 
-def lineS (v : Bool) (s : St) (tmo : Bool) (o : Outcome) (untl : Bool) : St :=
+def lineS (v : Prog) (s : St) (tmo : Bool) (o : Outcome) (untl : Bool) : St :=
   match stepS v s tmo o untl with
   | none => s
   | some t =>
@@ -389,7 +414,7 @@ def lineS (v : Bool) (s : St) (tmo : Bool) (o : Outcome) (untl : Bool) : St :=
         | some u => go k u
     go 4 t
 
-def lineC (v : Bool) (s : St) (tmo : Bool) : St :=
+def lineC (v : Prog) (s : St) (tmo : Bool) : St :=
   match stepC v s tmo with
   | none => s
   | some t =>
@@ -402,7 +427,7 @@ def lineC (v : Bool) (s : St) (tmo : Bool) : St :=
         | some u => go k u
     go 4 t
 
-def lineTick (v : Bool) (s : St) : Tick → St
+def lineTick (v : Prog) (s : St) : Tick → St
   | .c tmo => lineC v s tmo
   | .s tmo o untl => lineS v s tmo o untl
   | .call k => (step v s (.call k)).getD s
